@@ -22,3 +22,15 @@ Print Assumptions C20_user_names_never_reserved.
 Example C20_shipped_allocation_collides : user_ok [118;97;108;117;101;50] = true
   /\ shipped_temp [118;97;108;117;101] 2 = [118;97;108;117;101;50].
 Proof. exact shipped_collision. Qed.
+
+(* module level: the three names a user rule/class gives the module (u, _parse_u, _try_u) are never one of the
+   generator's own module-level functions (_function_<id>, _raise_error<id>, _matcher<id>), for any ids *)
+Theorem C20_rule_names_never_generated_functions :
+  forall u k j, user_ok u = true -> forall a b, In a (derived u) -> In b (generated k ++ generated j) -> a <> b.
+Proof. exact derived_never_generated. Qed.
+Print Assumptions C20_rule_names_never_generated_functions.
+
+Example C20_shipped_helper_names_collide :
+  user_ok ([102;117;110;99;116;105;111;110;95] ++ digits 5) = true /\
+  In (shipped_helper 5) (derived ([102;117;110;99;116;105;111;110;95] ++ digits 5)).
+Proof. exact shipped_helper_collision. Qed.
